@@ -40,6 +40,7 @@ for p in ('C01', 'C03', 'C04', 'C07', 'C10', 'C14', 'C15'):
     known('F11', p, cl, F11, '')
 known('F16', 'C16', ['C16.hang'], 'dispatch()/wait_until_idle() on a bus after stop() began restarts a run loop on the shut-down queue, which spins forever without sleeping (livelock; stop() itself can then cancel the wrong task)')
 known('F20', 'C16', ['C16.handler_after_stop'], 'an event of the stopped bus whose inline processing (by an awaiting handler) had begun before stop() returned still starts its remaining handlers afterwards')
+known('F21', 'C17', ['C17.written_before_handlers_finished'], 'an event dispatched twice to the same bus is processed a second time (as a no-op) inline by its own awaiting handler, and that second processing appends its WAL line while the event\'s handler is still running')
 known('F14', 'C02', ['C02.inversion'], 'a run loop holds a dequeued event while blocked on the global lock; an awaiting handler drains a later event of that bus first')
 F15 = 'on a parallel_handlers bus two sibling handlers that both await children process those subtrees concurrently'
 known('F15', 'C06', ['C06.overlap'], F15)
